@@ -73,6 +73,11 @@ def templated(tpl, n):
     return n + "Config" if tpl == "suffix" else "Cfg" + n
 
 
+def key(c, n):
+    """Gen.tla Key: the mapping key of entry n."""
+    return "My" + n if c.get("alias") else n
+
+
 def snapshot(root):
     out = {}
     for fn in os.listdir(root):
@@ -89,7 +94,7 @@ def run_one(rec):
     try:
         mod = "genin_%s" % rec["id"]
         src = "from collections import OrderedDict\n\n\n" + "\n\n".join(ENTRY_SRC[n] for n in c["mapping"]) + \
-              "\n\nmapping = OrderedDict((%s))\n" % "".join("(%r, %s), " % (n, n) for n in c["mapping"])
+              "\n\nmapping = OrderedDict((%s))\n" % "".join("(%r, %s), " % (key(c, n), n) for n in c["mapping"])
         with open(os.path.join(root, mod + ".py"), "w") as f:
             f.write(src)
         imports_file = os.path.join(root, "imports_src.py")
@@ -132,7 +137,7 @@ def run_one(rec):
                 res["syntax_error"] = str(e)
                 tree = None
             if tree is not None:
-                want = [templated(c["tpl"], n) for n in c["mapping"]]
+                want = [templated(c["tpl"], key(c, n)) for n in c["mapping"]]
                 items, iface_ok, kind_ok = [], True, True
                 for st in tree.body:
                     if isinstance(st, (ast.Import, ast.ImportFrom)):
@@ -187,7 +192,7 @@ def run(prop="C19", propose=False, replay=None):
     if not thorough:
         ex = [r for r in rows if r["cfg"]["exists"]]
         ne = [r for r in rows if not r["cfg"]["exists"]]
-        rows = rnd.sample(ex, 12) + rnd.sample(ne, 180)
+        rows = rnd.sample(ex, 12) + rnd.sample(ne, 240)
     recs = [{"id": "g%d" % i, "cfg": r["cfg"]} for i, r in enumerate(rows)]
     if replay:
         with open(replay) as f:
@@ -204,7 +209,7 @@ def run(prop="C19", propose=False, replay=None):
         for (_, cl, _) in fs:
             r = by[tid]
             c = r["cfg"]
-            feat = {"k": "gen", "cl": cl, "type": c["type"], "tpl": c["tpl"], "prepend": c["prepend"], "imports": c["imports"], "exists": c["exists"],
+            feat = {"k": "gen", "cl": cl, "type": c["type"], "tpl": c["tpl"], "prepend": c["prepend"], "imports": c["imports"], "exists": c["exists"], "alias": c["alias"],
                     "n": len(c["mapping"]), "has_class": any(n in ("Foo", "Baz") for n in c["mapping"]), "has_function": any(n in ("bar", "qux") for n in c["mapping"]),
                     "has_unannotated": any(n in ("Baz", "qux") for n in c["mapping"]), "status": r["status"], "second": r["second"],
                     "exc": (r["stderr"].strip().splitlines()[-1].split(":")[0] if r["status"] == "internal" and r["stderr"].strip() else "none"), "comps": []}
@@ -234,7 +239,7 @@ def run(prop="C19", propose=False, replay=None):
     cov.update({"traces_validated_against_impl": len(traces), "configurations_enumerated_by_tlc": 2880, "failing_traces": len(fails),
                 "known_findings_matched": len(matcher.hits), "stale_findings": matcher.stale(), "exhaustive": thorough,
                 "rule": "configuration = (mapping of 1-3 distinct entries among 2 classes with __init__ and 2 functions, annotated or not; output type; name "
-                        "template; prepend; 0-2 import lines; output exists); real CLI run + second invocation; output observed with ast",
+                        "template; prepend; 0-2 import lines; output exists; mapping keys equal to or different from the objects' own names); real CLI run + second invocation; output observed with ast",
                 "samples": [{k: v for k, v in r.items() if k in ("cfg", "status", "items", "all", "second")} for r in res[:: max(1, len(res) // 3)][:3]]})
     return R.finish(prop, "model_checking", cov, timer, violations[:200], matcher.report_lines(),
                     ["entries are drawn from four fixed definitions (two classes with __init__, two functions; annotated and unannotated)",
